@@ -12,9 +12,9 @@ ALL_TE = ["te-parse#", "te-parse-order#", "te-imparse#", "te-print#", "te-error#
 PARSE_TE = ["te-parse#", "te-parse-order#", "te-imparse#", "te-built-tree#", "te-depth#"]
 DISPLAY_TE = ["te-built-tree#", "te-built-print#", "te-value-print#"]
 SERDE_TE = ALL_TE + ["te-de#", "te-ser#", "te-ser-pretty#"]
-API_T = ["t-map-ops#", "t-into#"]
-ALL_T = ["t-parse#", "t-parse-order#", "t-reprint-sorted#", "t-built-tree#", "t-built-order#", "t-ser#", "t-value-display#", "t-ser-meaning#", "t-map-order#"] + API_T
-PO_T = ["t-parse#", "t-reprint-sorted#", "t-built-tree#", "t-ser-meaning#"] + API_T
+API_T = ["t-map-ops#", "t-into#", "t-foreign-map#"]
+ALL_T = ["t-parse#", "t-spanned-keys#", "t-parse-order#", "t-reprint-sorted#", "t-built-tree#", "t-built-order#", "t-ser#", "t-value-display#", "t-ser-meaning#", "t-map-order#"] + API_T
+PO_T = ["t-parse#", "t-spanned-keys#", "t-reprint-sorted#", "t-built-tree#", "t-ser-meaning#"] + API_T
 
 CONFIGS = {
     "te-default": (["te-parse", "te-display"], None, []),
@@ -30,9 +30,9 @@ CONFIGS = {
     "te-unbounded": (["te-parse", "te-display", "te-unbounded"], "te-default", ALL_TE),
     "t-default": (["t-parse", "t-display"], None, []),
     "t-po": (["t-parse", "t-display", "t-po"], "t-default", PO_T),
-    "t-parse-only": (["t-parse"], "t-default", ["t-parse#", "t-parse-order#", "t-built-tree#", "t-built-order#", "t-map-order#"] + API_T),
+    "t-parse-only": (["t-parse"], "t-default", ["t-parse#", "t-spanned-keys#", "t-parse-order#", "t-built-tree#", "t-built-order#", "t-map-order#"] + API_T),
     "t-display-only": (["t-display"], "t-default", ["t-built-tree#", "t-built-order#", "t-ser#", "t-value-display#", "t-map-order#"] + API_T),
-    "t-po-parse-only": (["t-parse", "t-po"], "t-po", ["t-parse#", "t-parse-order#", "t-built-tree#", "t-built-order#", "t-map-order#"] + API_T),
+    "t-po-parse-only": (["t-parse", "t-po"], "t-po", ["t-parse#", "t-spanned-keys#", "t-parse-order#", "t-built-tree#", "t-built-order#", "t-map-order#"] + API_T),
     "t-po-display-only": (["t-display", "t-po"], "t-po", ["t-built-tree#", "t-built-order#", "t-ser#", "t-value-display#", "t-map-order#"] + API_T),
     "t-perf": (["t-parse", "t-display", "te-perf"], "t-default", ALL_T),
     "t-po-perf": (["t-parse", "t-display", "t-po", "te-perf"], "t-po", ALL_T),
